@@ -55,6 +55,9 @@ def main():
     shutil.copytree(REPO, tree, ignore=shutil.ignore_patterns(".git", "__pycache__", "*.pyc", "sites", "images"))
     env = dict(os.environ, PYTHONPATH=tree, PYTHONDONTWRITEBYTECODE="1")
     ran = {}
+    prev_suite = meta.get("what_i_ran", {}).get("suite_changed")
+    if a.skip_suite and prev_suite:
+        ran["suite_changed"] = prev_suite  # confirmed in an earlier run of this tool
     try:
         demo = os.path.join(dest, "demo.py")
         # the demo may refer to its own worktree path; run it from the scratch tree
@@ -93,7 +96,7 @@ def main():
         shutil.rmtree(d, ignore_errors=True)
     ok_seed = (ran.get("demo_clean", {}).get("rc") == 0 and ran.get("patch_applies", {}).get("rc") == 0
                and ran.get("imports", {}).get("rc") == 0 and ran.get("demo_changed", {}).get("rc") not in (0, None)
-               and (a.skip_suite or (ran.get("suite_changed", {}).get("rc") == 0)))
+               and ((a.skip_suite and not prev_suite) or (ran.get("suite_changed", {}).get("rc") == 0)))
     meta["confirmed"] = bool(ok_seed)
     meta["what_i_ran"] = ran
     meta["repo_head"] = sh(["git", "-C", REPO, "rev-parse", "--short", "HEAD"])[1].strip()
